@@ -717,8 +717,26 @@ func (in *Interp) equalsDyn(x, y value) *Term {
 			return in.ts.False
 		}
 		return in.equals(xv.t, xv.v, yv.v)
-	case structure, array:
-		panic(unsupported("symbolic struct/array map key"))
+	case array:
+		yv, ok := y.(array)
+		if !ok || len(yv) != len(xv) {
+			return in.ts.False
+		}
+		r := in.ts.True
+		for i := range xv {
+			r = in.ts.And(r, in.equalsDyn(xv[i], yv[i]))
+		}
+		return r
+	case structure:
+		yv, ok := y.(structure)
+		if !ok || len(yv) != len(xv) {
+			return in.ts.False
+		}
+		r := in.ts.True
+		for i := range xv {
+			r = in.ts.And(r, in.equalsDyn(xv[i], yv[i]))
+		}
+		return r
 	}
 	return in.equals(nil, x, y)
 }
